@@ -99,6 +99,30 @@ func runKq(c *core.Ctx, id string) {
 			c.Sample(map[string]interface{}{"options": o, "steps": rep.Steps, "events": rep.Events, "op_kinds": rep.OpKinds})
 		}
 	}
+	for i := 0; i < c.Pick(20, 120); i++ {
+		rng, ok := c.CaseRng(7000+i, "user watches inside a watched directory")
+		if !ok {
+			continue
+		}
+		rep := kqUserInside(rng)
+		c.Eval(1)
+		c.Count("user_inside_histories", 1)
+		kqStats(c, &rep)
+		if rep.Events > 0 {
+			c.Distinct(id, "user-inside", c.Batch, i)
+		}
+		for _, f := range rep.Findings {
+			if f.Kind == "harness" || f.Kind == "no-quiescence" {
+				c.Inconclusive(f.Kind + ": " + f.Detail)
+				continue
+			}
+			if f.Owner != id {
+				c.Count("findings_of_the_sibling_property_seen", 1)
+				continue
+			}
+			c.Violate(f.Kind, fmt.Sprintf("%s; history %v", f.Detail, f.Log), f)
+		}
+	}
 	if id == "C17" {
 		m := c.Pick(40, 150)
 		for i := 0; i < m; i++ {
